@@ -48,7 +48,7 @@ def plan(tier, seed):
 
 
 def mandatory(tier):
-    return [f"mode/{m}" for m in FD_MODES + ["bspline"]] + [f"spacing/{s}" for s in SPACING_FORMS] + ["D/2", "D/3", "subset", "quadratic", "bracket", "curl"]
+    return [f"mode/{m}" for m in FD_MODES + ["bspline"]] + [f"spacing/{s}" for s in SPACING_FORMS] + ["D/2", "D/3", "subset", "quadratic", "bracket", "curl", "curl/divergence_free_flow"]
 
 
 def interior(a, m=2):
@@ -132,6 +132,11 @@ def run_item(ctx, item):
             else:
                 ref = np.stack([A[:, 2, 1] - A[:, 1, 2], A[:, 0, 2] - A[:, 2, 0], A[:, 1, 0] - A[:, 0, 1]], axis=1).reshape((N, 3, 1, 1, 1))
             ctx.close("curl_of_affine_field", crl, np.broadcast_to(ref, crl.shape), tol * 2, key=f"curl/{mode}", **info)
+            if D == 3:
+                # documented: for a 3-channel 3-D input divergence_free_flow() is the curl of the field (same options)
+                dff = interior(U.divergence_free_flow(u, mode=mode, spacing=arg).numpy(), m)
+                ctx.bucket("curl/divergence_free_flow")
+                ctx.close("divergence_free_flow_of_vector_field_is_its_curl", dff, np.broadcast_to(ref, dff.shape), tol * 2, key=f"curl/{mode}", via="divergence_free_flow", **info)
         # Lie bracket [v, u] = Jac(v) u - Jac(u) v of two affine fields, per the documented definition
         with ctx.guard("lie_bracket", **info):
             ctx.bucket("bracket")
